@@ -148,6 +148,11 @@ pub fn configs(tier: Tier) -> Vec<(Cfg, Plan)> {
                 if variant.is_ipc() && (objects.len() == 8 || tier == Tier::Quick) {
                     let victim = [Obj::Svc0, Obj::Node1, Obj::Node0].into_iter().find(|o| objects.contains(o)).unwrap();
                     objects.retain(|o| *o != victim);
+                    // the thread-safe ipc variant: 6 objects in thorough
+                    if variant == Variant::IpcThreadsafe && objects.len() == 7 {
+                        let victim = [Obj::Svc1, Obj::Node1, Obj::Node0].into_iter().find(|o| objects.contains(o)).unwrap();
+                        objects.retain(|o| *o != victim);
+                    }
                 }
                 let n = objects.len();
                 let split = match (variant.is_ipc(), n) {
@@ -158,7 +163,12 @@ pub fn configs(tier: Tier) -> Vec<(Cfg, Plan)> {
                     (false, 7) => 4,
                     _ => 2,
                 };
-                v.push((Cfg { pattern, variant, two_nodes, objects, send_instead_of_drop: send }, Plan { tree_depth: n, finish_prefixes: false, frontier: None, split }));
+                let cfg = Cfg { pattern, variant, two_nodes, objects, send_instead_of_drop: send };
+                // reduced graphs can coincide
+                if v.iter().any(|(c, _): &(Cfg, Plan)| format!("{c:?}") == format!("{cfg:?}")) {
+                    continue;
+                }
+                v.push((cfg, Plan { tree_depth: n, finish_prefixes: false, frontier: None, split }));
             }
         }
     }
